@@ -1,8 +1,11 @@
 """C04 — memory returned to a pool is reusable: no capacity is lost (DESIGN.md #C04)"""
 import subjects
 
-SPEC = dict(modules=["MemVerif.Props.C04", "MemVerif.Props.C04Lists"], gen_cfgs=("rwdi",),
-            assumptions=["cycle theorem is for node cycles on the unordered list; multi-array cycles on the unordered list can grow (documented "
+SPEC = dict(modules=["MemVerif.Props.C04", "MemVerif.Props.C04Lists", "MemVerif.Props.C04Pool"], gen_cfgs=("rwdi",),
+            assumptions=["memory_pool over the unordered and the ordered list: exact accounting for ALL histories (Props/C04Pool: capacity + live "
+                         "cells = cells of the blocks in use; nothing lost after everything is released; cycles without growth restore the "
+                         "counter exactly) under the C01 environment hypotheses and n*node_size < 2^64",
+                         "node-cycle no-growth theorem is for the unordered list; multi-array cycles on the unordered list can grow (documented "
                          "limitation, finding D15) and are excluded from the cycle oracle",
                          "small list: restoration is proved at the level of chunk capacities"])
 
